@@ -175,9 +175,8 @@ def gen_request(prj, rng, conn_size=4000, for_write=False, tag=None, want=None):
         # descend into a structure member?
         can_descend = dtype.kind == "struct" and (not in_array or indexed)
         if can_descend and rng.random() < 0.6:
-            vis = dtype.visible_members()
-            if for_write:
-                vis = [m for m in vis]
+            # a scalar DWORD member (CONTROL.CTL) is neither an integer nor a BOOL array in the documented syntax: not addressed
+            vis = [m for m in dtype.visible_members() if not (m.dtype.name == "DWORD" and not m.array_len)]
             if not vis:
                 break
             m = rng.choice(vis)
@@ -201,6 +200,16 @@ def gen_request(prj, rng, conn_size=4000, for_write=False, tag=None, want=None):
                 dims, avail, in_array, indexed = None, 1, False, False
             continue
         break
+    if for_write and dtype.kind == "struct" and getattr(dtype, "overlapped", False):
+        # whole-structure writes where BOOL members alias bits of visible members: expectation undefined -> write a member instead
+        vis = [m for m in dtype.visible_members() if not m.is_bit and m.dtype.kind == "atomic" and not m.array_len and m.dtype.name != "DWORD"]
+        if vis:
+            m = rng.choice(vis)
+            text += "." + m.name
+            off += m.offset
+            dtype = m.dtype
+            in_array, avail = False, 1
+            shape.append(".m")
     # ---- .bit of an integer ----------------------------------------------------------------------------------------------
     if dtype.name in ("SINT", "INT", "DINT", "LINT") and rng.random() < (0.25 if not for_write else 0.3):
         bit = rng.choice([0, 1, 7, 8 * dtype.size - 1, rng.randrange(8 * dtype.size)])
